@@ -36,8 +36,8 @@ def header_flags(h):
         if f in ("--depfile", "--wrap-static-fns-path", "--wrap-static-fns-suffix", "--rustfmt-configuration-file", "--output", "-o"):
             skip = 1
             continue
-        if f in ("--wrap-static-fns",):
-            continue
+        if f in ("--wrap-static-fns", "--clang-macro-fallback"):
+            continue      # (the macro fallback writes fixed file names into the working directory: its own experiment below)
         out.append(f)
     return out, cl
 
@@ -49,7 +49,9 @@ def run_hist(exe, jobs, threads, tmp, tag, env=None):
             # side-output paths (depfile, wrapper source) are made unique per invocation and job: concurrent runs must not share files
             flags = [x + ".%s_%d" % (tag, k) if x.startswith(tmp) else x for x in flags]
             f.write("\t".join([jid, vlib.enc(header)] + [vlib.enc(x) for x in flags]) + "\n")
-    rc, out, err = sh2([exe, "hist", str(threads), vlib.enc(jf)], timeout=1800, cwd=tmp, env=env)
+    wd = os.path.join(tmp, "wd_%s" % tag)
+    os.makedirs(wd, exist_ok=True)
+    rc, out, err = sh2([exe, "hist", str(threads), vlib.enc(jf)], timeout=1800, cwd=wd, env=env)
     if rc != 0:
         raise TieBroken("harness-run:hist", err[-2000:])
     res = {}
@@ -219,6 +221,24 @@ def run(ck):
                                  {"header": os.path.basename(h), "flags": [x.replace(tmp, "<tmp>") for x in fl], "threads": nt, "same_header_on_all_threads": same, "alone": ref[base], "concurrent": v})
                     break
         ck.sample({"job": os.path.basename(jobs[0][1]), "reference": ref[jobs[0][0]]})
+        # (d) --clang-macro-fallback: every generation writes ./.macro_eval.c and ./<header>-precompile.h.pch in the working directory
+        fb = []
+        for k in range(6):
+            p = os.path.join(tmp, "fb%d.h" % k)
+            open(p, "w").write("".join("#define FB%d_%d ((int)sizeof(char[%d]) + %d)\n" % (k, i, 3 + k + i, 100 * k + i) for i in range(40)))
+            fb.append(("fb%d" % k, p, ["--clang-macro-fallback", "--formatter", "none"]))
+        fref = {}
+        for j in fb:
+            fref[j[0]] = run_hist(exe, [j], 1, tmp, "fbref_" + j[0])[j[0]]
+        seq = [("%s.%d" % (j[0], k), j[1], j[2]) for k, j in enumerate(fb * 4)]
+        res = run_hist(exe, seq, 6, tmp, "fbthreads")
+        for jid, h, fl in seq:
+            ck.evaluations += 1
+            v = res.get(jid)
+            if v != fref[jid.split(".")[0]]:
+                ck.violation("C11-threads:clang-macro-fallback-shared-files", "concurrent generations with --clang-macro-fallback in one process interfere: they all write ./.macro_eval.c and the "
+                             "precompiled header in the working directory", {"header": open(h).read()[:400], "flags": fl, "threads": 6, "alone": fref[jid.split(".")[0]], "concurrent": v})
+                break
     finally:
         shutil.rmtree(tmp, ignore_errors=True)
 
